@@ -157,8 +157,8 @@ func c19OSCheck(l *OSFileSystemLoader, dir, p string, tree []string) {
 	}
 }
 
-var c19OSRoots = []string{"/repo/testData/resolve", "/repo/testData/resolve/", "/repo/testData", "/repo/testData/resolve/sub", "/repo/loaders/../testData/resolve", "/verif/fixtures/ostree"}
-var c19OSDirs = []string{"/repo/testData/resolve", "/repo/testData/resolve", "/repo/testData", "/repo/testData/resolve/sub", "/repo/testData/resolve", "/verif/fixtures/ostree"}
+var c19OSRoots = []string{"/repo/testData/resolve", "/repo/testData/resolve/", "/repo/testData", "/repo/testData/resolve/sub", "/repo/loaders/../testData/resolve", "/verif/fixtures/ostree", "/verif/fixtures/oslinks"}
+var c19OSDirs = []string{"/repo/testData/resolve", "/repo/testData/resolve", "/repo/testData", "/repo/testData/resolve/sub", "/repo/testData/resolve", "/verif/fixtures/ostree", "/verif/fixtures/oslinks"}
 
 // H_C19_osShort: every clean absolute path of up to 4 (quick) / 5 (thorough) bytes - all
 // bytes symbolic - against the real tree below /repo/testData (several spellings of the
@@ -167,7 +167,7 @@ var c19OSDirs = []string{"/repo/testData/resolve", "/repo/testData/resolve", "/r
 //gosym:reach dir,notfile
 func H_C19_osShort() {
 	r := ndChoice("root", len(c19OSRoots))
-	if r == 5 {
+	if r >= 5 {
 		vfOSRoot("/verif/fixtures", "/repo")
 	} else {
 		vfOSRoot("/repo", "/repo")
@@ -190,8 +190,10 @@ func H_C19_osShort() {
 func H_C19_osNear() {
 	// "/repo/testData/resolve", "/repo/testData", and a fixture tree with unusual names (dots
 	// inside names, leading dots, spaces, an empty file)
-	r := []int{0, 2, 5}[ndChoice("root", 3)]
-	if r == 5 {
+	// inside names, leading dots, spaces, an empty file), and one with symbolic links (to a
+	// file: a template; to a directory: a directory; dangling: missing)
+	r := []int{0, 2, 5, 6}[ndChoice("root", 4)]
+	if r >= 5 {
 		vfOSRoot("/verif/fixtures", "/repo")
 	} else {
 		vfOSRoot("/repo", "/repo")
@@ -207,6 +209,9 @@ func H_C19_osNear() {
 		}
 	}
 	universe = append(universe, "/nope.jet", "/sub/nope", "/simple.jet/x", "/sub/extend/..")
+	if r == 6 {
+		universe = append(universe, "/gone.jet", "/gone.jet/x", "/alias.jet/x", "/shared/nope")
+	}
 	if len(universe) > 24 {
 		universe = universe[:24]
 	}
